@@ -70,7 +70,22 @@ pub fn build_image(
     let built = gen::build(logical, dir, name, &gen::BuildOpts::default())
         .map_err(|e| format!("build {name}: {e}"))?;
     let spec = dump::DumpSpec::for_model(&built.model);
-    let d = dump::dump_container(&built.entry, &spec);
+    // a panic of jubako while it reads an undamaged container is an observation (the image then
+    // does not match its model and is reported in the fault-free part), not a harness error
+    let d = match std::panic::catch_unwind(std::panic::AssertUnwindSafe(|| {
+        dump::dump_container(&built.entry, &spec)
+    })) {
+        Ok(d) => d,
+        Err(_) => {
+            harness_panic_guard("pristine dump");
+            let mut d = dump::Dump::default();
+            d.push(
+                "open",
+                dump::Leaf::Err(format!("panicked at {}", last_panic_location())),
+            );
+            d
+        }
+    };
     Ok((built, d))
 }
 
